@@ -775,6 +775,25 @@ def o7_plumbing(chk: Check) -> None:
     )
 
 
+def o9_failure_counter_sites(chk: Check) -> None:
+    chk.rule("C05.O9", "WHO-MAY-CALL(count_failure): the failure limit is counted only after the failing scenario was closed (unit consumer loop) or right before FailureGroup is raised (stateful on_failure); counting from inside a running unit test trips has_to_stop in the middle of the scenario - the next call raises KeyboardInterrupt, the scenario that FOUND the failure is closed as INTERRUPTED and the exit code stays 0", floor=2)
+    sites = shared.count_failure_sites_rule(
+        chk, "C05.O9",
+        "the limit can now be reached while the test that found the failure is still running (continue_on_failure): cached_test_func raises KeyboardInterrupt on the next example, run_test reports the scenario as INTERRUPTED, the phase status becomes INTERRUPTED and ExecutionContext.on_event never sets a non-zero exit code",
+        "failures of this phase are never counted")
+    # the consumer counts only after it has seen (and forwarded) the closing event of the scenario
+    P = chk.project
+    ue = P.func(f"{UNIT}:execute")
+    g = cfg_of(ue)
+    for fn, c in sites:
+        if fn.qualname != ue.qualname:
+            continue
+        ys = [n.id for n in g.live() if n.kind == "stmt" and any(isinstance(y, ast.Yield) for y in walk_local(n.ast))]
+        cn = g.stmt_nodes_containing(c)
+        ok = bool(ys) and all(any(x in g.reachable_from([y]) for y in ys) for x in cn)
+        chk.decide(True if ok else None, "C05.O9", ue, "counted after the event was forwarded", "count_failure is not downstream of the `yield event` of the consumer loop", ue.loc(c))
+
+
 def rfwd_forwarding(chk: Check) -> None:
     from . import shared
 
@@ -782,4 +801,4 @@ def rfwd_forwarding(chk: Check) -> None:
 
 
 def rules(tier: str) -> list:  # type: ignore[type-arg]
-    return [o1_thread_targets, o2_run_test_ladder, o3_failure_recording, o3b_run_checks, o4_status_folding, o5_exit_code, o6_marks, o7_plumbing, o8_statistic_accumulates, rfwd_forwarding]
+    return [o1_thread_targets, o2_run_test_ladder, o3_failure_recording, o3b_run_checks, o4_status_folding, o5_exit_code, o6_marks, o7_plumbing, o8_statistic_accumulates, o9_failure_counter_sites, rfwd_forwarding]
